@@ -11,6 +11,7 @@ COMMON_TRUSTED = [
 
 # (file under coq/Gen, acra-vh arguments that print it): regenerated from /repo on every run
 GENERATORS = [
+    ("MysqlSessionConsts.v", ["x05myconsts"]),
     ("SqlWords.v", ["sqlwords"]),
     ("SqlKeywords.v", ["sqlkeywords"]),
     ("X18Consts.v", ["x18consts"]),
@@ -620,7 +621,8 @@ PROPS = {
         "properties": [
             "C05",
             "C05_patterns",
-            "C05_prepared"
+            "C05_prepared",
+            "C05_mysql"
         ],
         "domains": [
             {
@@ -650,18 +652,28 @@ PROPS = {
                 "n_quick": 48,
                 "n_thorough": 1200,
                 "model": True
+            },
+            {
+                "name": "c05my",
+                "run_vo": "Model/RunMysqlSession.vo",
+                "n_quick": 40,
+                "n_thorough": 600,
+                "model": True
             }
         ],
         "trusted": [
             "modelled, not verified: the yacc SQL parser/normalizer (formatting invariance is checked differentially on the real AcraCensor only) and common.ParsePatterns (placeholder text replacement + parse): statements and parsed patterns enter the pattern model as the tree forms of their REAL ASTs, exported by reflection (harness/cmd/acra-vh/c05pat_tree.go; kinds/field names/placeholder statements regenerated into coq/Gen/Censor{Kinds,Patterns,Witness}.v)",
             "pattern model (Model/CensorPattern.v): strings.EqualFold / strings.ToLower are modelled on ASCII (the generator keeps identifiers and keywords ASCII; non-ASCII only inside literals, which are compared byte-wise); the shape predicate wf (mandatory operands present, slice fields hold slices) is an assumption of the theorems that the replay checks on every exported tree; exact-query match results (CheckExactQueriesMatch: a map lookup) stay inputs of the chain model",
-            "session models: Model/PgSession.v covers the simple query protocol ('Q'); Model/PgPrepared.v (C05_prepared, domain c05prep) covers the extended protocol around the prepared-statement registry, the portal registry and pendingQueryPackets (Parse / Bind / Execute by name, unnamed and named, re-Parse of a name; Describe / Close / Sync / Flush are forwarded without state change, as in the code: the proxy never calls DeleteStatement/DeleteCursor for a Close). Not modelled: Bind parameters and what the observers do with them (only WHICH statement they are handed is observed, by a recording query observer), RowDescription / ParameterDescription rewriting (session-scoped QueryDataItems), PortalSuspended / row-limited Execute, SQL-level PREPARE / EXECUTE / DEALLOCATE, the MySQL proxy",
+            "session models: Model/PgSession.v covers the simple query protocol ('Q'); Model/PgPrepared.v (C05_prepared, domain c05prep) covers the extended protocol around the prepared-statement registry, the portal registry and pendingQueryPackets (Parse / Bind / Execute by name, unnamed and named, re-Parse of a name; Describe / Close / Sync / Flush are forwarded without state change, as in the code: the proxy never calls DeleteStatement/DeleteCursor for a Close). Not modelled: Bind parameters and what the observers do with them (only WHICH statement they are handed is observed, by a recording query observer), RowDescription / ParameterDescription rewriting (session-scoped QueryDataItems), PortalSuspended / row-limited Execute, SQL-level PREPARE / EXECUTE / DEALLOCATE",
+            "MySQL session model (Model/MysqlSession.v, C05_mysql, domain c05my): the command switch of Handler.ProxyClientConnection (COM_QUERY / COM_STMT_PREPARE with the censor verdict as input, COM_STMT_EXECUTE by id and by the MariaDB id -1, COM_STMT_CLOSE / RESET / SEND_LONG_DATA, the commands without a case, COM_QUIT, a COM_STMT_EXECUTE too short for an id), sendCommandError byte for byte, the five response handlers incl. the field trackers in both EOF modes, PreparedStatementRegistry, ProtocolState.pendingParse, and WHICH statement's column settings are in force (QueryDataEncryptor.querySelectSettings). A result set is one database event (QueryResponseHandler reads all of it in one call; stateSkipResponse therefore never spans two events). Not modelled: what OnQuery / OnBind do to the forwarded bytes (C04 owns that: only the statement identity of a forwarded packet is observed), column definition re-typing, multi-statement COM_QUERY / multi-result answers, cursors (COM_STMT_FETCH), COM_RESET_CONNECTION / COM_CHANGE_USER (the server drops its statements, the registry does not), MariaDB metadata caching, TLS switch-over, SQL-level PREPARE / EXECUTE, pipelined clients (the theorems about the system take one exchange at a time: the MySQL protocol is half-duplex)",
+            "c05my: in-process rig harness/myrig/c05my_rig.go + c05my_backend.go (same wiring as the C04 MySQL rig, plus a configured AcraCensor; packet-level scripted client that keeps sequence ids and wire parts; the fake MySQL server is written from the protocol documentation, allocates statement ids from a counter, resolves id -1 to the statement prepared last and answers from a statement plan of the generator); Acra's own view of the session is read through the add-only hook decryptor/mysql/export_verif_x05my.go (installed response handler by method name, currentCommand, registry id -> text, pending statement); the settings a row was decoded with are read off the value the client receives (int32 columns with per-table default values / response_on_fail: error over undecodable cells); the expected verdict of a statement is the generator's own reading of the generated rules (tables / patterns / queries / query_ignore / allowall / denyall / no handlers, ignore_parse_error), not the model's",
             "c05prep reads Acra's own view of the session through the add-only hook decryptor/postgresql/export_verif_s43.go (registry name -> text, portal -> text, pending query packets) and through a recording QueryObserver registered like the real ones (harness/censorrig/pgrig_prep.go)",
             "in-process PostgreSQL rig (harness/vh/pgrig.go): net.Pipe pairs, scripted client and fake back end, read-start synchronisation on the proxy's database connection"
         ],
         "assumptions": [
             "queue_aligned: the database answers the statements it received in order, one completion (CommandComplete/ErrorResponse) + ReadyForQuery per statement (simple protocol, single-statement queries)",
             "C05_prepared_aligned / C05_prepared_registries_agree: the database keeps its registries from the packets it receives (Parse: name -> statement, Bind: portal -> statement of that name, Execute: queues the portal's statement), accepts every forwarded Parse and Bind, answers executions in order with one completion each, and does not drop a statement or portal on Close / at the end of a transaction (the generated sessions do not re-use a closed name before re-creating it); the database-side errors of the extended protocol (Bind/Execute of a name the database does not know, skip-until-Sync) are outside the model",
+            "C05_mysql_rows_own_settings / rows_always_decoded / session_stays_usable: the MySQL server answers every command it receives as the protocol prescribes (one OK / ERR / result set per COM_QUERY and COM_STMT_EXECUTE, COM_STMT_PREPARE_OK + definition blocks with or without EOF according to CLIENT_DEPRECATE_EOF, nothing for COM_STMT_CLOSE / SEND_LONG_DATA), allocates fresh statement ids, resolves id -1 to the statement prepared last unless that PREPARE failed, and the client sends its next command after the complete answer (half-duplex); which answer the server gives (OK, error, which rows) is quantified over; the theorems about run_session (forwarded_was_accepted, denied_never_forwarded, registry_only_accepted, rejected_never_registered, rejected_statement_answer) assume nothing about the server",
             "wf (C05_patterns): statement and pattern trees have the shape the sqlparser grammar produces (no nil where the grammar always puts an operand; SQLVal.unknown only under UnknownVal); validated on every tree the harness exports"
         ]
     },
@@ -705,12 +717,42 @@ PROPS = {
         "rule": "for sample protected values of each kind: bit flips (sampled; exhaustive for the first samples in the thorough tier), truncations, extensions, every header field x boundary values (0, small, exact+-1, 2^31, 2^63+-1, 2^64-k), envelope-id/type bytes, splices of two values, swapped/flipped search hashes; at every reveal entry point; each call replayed on the model",
     },
     "C01": {
-        "properties": ["C01", "C01_old"],
-        "domains": [dom("c01", "Model.RunEnvelope", 60, 1200),
-                    dom("c01old", "Model.RunEnvelopeOld", 45, 1500)],
-        "trusted": ["modelled, not verified: the gRPC/HTTP framing around TranslatorService; key lookup by client id (C02/C06)",
-                    "legacy column path (C01_old): the detector's callback list is [wrapper; DecryptHandler(RegistryHandler)] as both proxy factories build it without a poison recogniser (C15) and without the masking processor (C11); ProcessAcraBlocks is modelled as a pure function, its aliased-buffer call is justified by C01_old_wrapper_never_grows + C01_old_aliasing_sound and replayed on the in-place model; ReEncryptHandler settings are the three booleans it reads"],
-        "assumptions": ["Correct C (Themis seal/wrap round-trip and length laws) as an explicit premise of every theorem",
-                        "plaintext length < 2^32-1024 (Themis' 32-bit length field)"],
+        "properties": [
+            "C01",
+            "C01_old",
+            "C01_chain"
+        ],
+        "domains": [
+            {
+                "name": "c01",
+                "run_vo": "Model/RunEnvelope.vo",
+                "n_quick": 60,
+                "n_thorough": 1200,
+                "model": True
+            },
+            {
+                "name": "c01old",
+                "run_vo": "Model/RunEnvelopeOld.vo",
+                "n_quick": 45,
+                "n_thorough": 1500,
+                "model": True
+            },
+            {
+                "name": "c01chain",
+                "run_vo": "Model/RunFullChain.vo",
+                "n_quick": 90,
+                "n_thorough": 1800,
+                "model": True
+            }
+        ],
+        "trusted": [
+            "modelled, not verified: the gRPC/HTTP framing around TranslatorService; key lookup by client id (C02/C06)",
+            "legacy column path (C01_old): the detector's callback list is [wrapper; DecryptHandler(RegistryHandler)] as both proxy factories build it without a poison recogniser (C15) and without the masking processor (C11); ProcessAcraBlocks is modelled as a pure function, its aliased-buffer call is justified by C01_old_wrapper_never_grows + C01_old_aliasing_sound and replayed on the in-place model; ReEncryptHandler settings are the three booleans it reads",
+            "full chain (C01_chain, domain c01chain): Model/FullChain.v composes the stage models in the order proxyFactory.New (PostgreSQL and MySQL) builds the ChainDataEncryptor and the column subscribers; the harness takes both lists from the factory-built proxies (hooks export_verif_s55.go) and asserts their composition for every schema (tokenization / search / masking stages present or not). Settings in scope are not tokenized: TokenEncryptor / TokenProcessor are in the driven chains but act as the identity (tokenized columns themselves are property C10); no poison callback storage; MySQL's own decoder / encoder subscribers and the SQL statement layer around the data encryptor are outside (C04/C19)"
+        ],
+        "assumptions": [
+            "Correct C (Themis seal/wrap round-trip and length laws) as an explicit premise of every theorem",
+            "plaintext length < 2^32-1024 (Themis' 32-bit length field)"
+        ]
     },
 }
